@@ -1551,7 +1551,9 @@ impl Melda {
                     .lock()
                     .expect("failed_to_acquire_revision_tree_for_reading");
                 if let Some(winner) = rt_r.get_winner() {
-                    if !winner.is_deleted() {
+                    // A deleted array descriptor can still be referenced by the winning revision of
+                    // its owner while both are in conflict: it is read as its merged order
+                    if !winner.is_deleted() || is_array_descriptor(uuid) {
                         let mut obj = self.read_object_at_revision(uuid, &rt_r, winner).unwrap();
                         drop(rt_r);
                         obj.insert(ID_FIELD.to_string(), Value::from(uuid.clone()));
